@@ -142,6 +142,10 @@ type SetRecord struct {
 	Updates []*Leaf
 	Fault   DevFault
 	Applied bool
+	// Wire: "" for the direct device, "gnmi" / "netconf" when the record was decoded from a wire message of a real target
+	Wire string
+	// WireErr: the front end could not decode the message (the device refused it)
+	WireErr string
 	// other encodings of the same tree instance (filled when CaptureEncodings)
 	JSON, JSONIETF         any
 	JSONFull, JSONIETFFull any
